@@ -1,5 +1,6 @@
 from openpyxl.utils import column_index_from_string
 
+from excel2pycl.src.cell import Cell
 from excel2pycl.src.context import Context
 from excel2pycl.src.excel import Excel
 from excel2pycl.src.exceptions import E2PyclCellException
@@ -28,8 +29,11 @@ class ColumnControlConstructionTokenTranslator(AbstractTranslator):
 
             own_column = token.in_cell.column
             for i in range(token.matrix.matrix[0].column + 1, token.matrix.matrix[-1].column + 2):
-                # The only way to set multiple cells while parsing single token
-                context.set_cell(token.in_cell, str(i))
+                # The only way to set multiple cells while parsing single token; the numbers spill to the right over
+                # cells that hold nothing in the workbook, a cell with content of its own keeps it
+                spilled = Cell(token.in_cell.title, token.in_cell.column, token.in_cell.row)
+                if token.in_cell.column == own_column or excel.fill_cell(spilled).value is None:
+                    context.set_cell(token.in_cell, str(i))
                 token.in_cell.column += 1
             # back to the formula's own cell (it holds the number of the first column of the area)
             token.in_cell.column = own_column
